@@ -1,7 +1,8 @@
 """C08 — MPR penetration result (structural clauses)."""
 from . import scopes
 from ..core.report import DOMAIN_D
-from ..rules import colliders, mink, unitdir, loops, unpack, ericson, misc2
+from .common import e2
+from ..rules import frame, colliders, mink, unitdir, loops, unpack, ericson, misc2
 
 
 def run(idx, rep, tier):
@@ -22,6 +23,7 @@ def run(idx, rep, tier):
     loops.r_loop(idx, rep, ["distance3d.mpr"], floor=2)
     ericson.r_ericson(idx, rep)
     misc2.r_dupcond(idx, rep, [m.name for m in idx.lib_modules()], floor=3)
+    frame.r_frame(idx, rep, e2(idx), modules={"distance3d.colliders", "distance3d.mesh"}, floor=10)      # MPR aims its origin ray at collider.center() and reads support points: both are world-frame points
     colliders.r_coherence(idx, rep, relevant_to="support_function")      # the colliders of the statement include colliders that were moved with update_pose: a stale attribute changes the support mapping the solver sees
     misc2.r_adjacency(idx, rep)      # mesh colliders answer support queries by hill climbing over this adjacency
     unitdir.r_portaldir(idx, rep)
